@@ -280,6 +280,10 @@ fn mode_n(m: LockMode) -> u64 {
 }
 
 impl State {
+    pub fn published_below(&self) -> u64 {
+        self.published_below
+    }
+
     fn new(cfg: RunCfg) -> Self {
         let n = cfg.n_threads;
         let mut threads = Vec::new();
